@@ -818,7 +818,7 @@ func (w *sessWorld) main(dir string) {
 		simrt.Send(hs, 0)
 	})
 	got := 0
-	bound := time.NewTimer(confC.InitializeTimeout + 30*time.Second)
+	bound := simrt.NewTimer(confC.InitializeTimeout + 30*time.Second)
 	for got < 2 {
 		i, _, _ := simrt.Select(false, simrt.RecvCase(hs), simrt.RecvCase(bound.C))
 		if i != 0 {
@@ -1089,7 +1089,7 @@ func (w *sessWorld) waitThreads(bound time.Duration) {
 		if left <= 0 {
 			return
 		}
-		t := time.NewTimer(left)
+		t := simrt.NewTimer(left)
 		i, _, _ := simrt.Select(false, simrt.RecvCase(w.fin), simrt.RecvCase(t.C))
 		t.Stop()
 		if i == 0 {
